@@ -421,7 +421,7 @@ def space(quick):
         flat("func", 4, "lean3", max_dev=2, tag="-reduced")
         for form in ("list", "dataclass", "plainclass"):
             flat(form, 1, "full:sel" if form == "list" else "full")
-            flat(form, 2, "full:sel" if form == "list" else "full")
+            flat(form, 2, "full")
         for form in ("list", "dataclass", "plainclass"):
             flat(form, 3, "lean3", max_dev=2, tag="-reduced")
         flat("dict", 1, "full:sel")
@@ -435,10 +435,10 @@ def space(quick):
         klass([(1, 2), (2, 1)], "lean3", ["shared"], (2,), max_dev=1)
         klass([(0, 1), (1, 0), (1, 1), (0, 2), (2, 0)], "lean", None, None, form="mixed")
         klass([(0, 1), (1, 0)], "lean:sel", None, (2,), form="mixed")
-        klass([(0, 1), (1, 0)], "lean:sel", None, (2,), form="mixed", nest=1)
+        klass([(0, 1), (1, 0)], "argv:sel", None, (2,), form="mixed", nest=1)
         kinds([(0, 1)], "full", kind_variants)
         kinds([(1, 0)], "lean", init_variants)
-        kinds([(1, 1)], "lean", [("cls", "cls", ""), ("cls", "cls", "all"), ("static", "static", "all")])
+        kinds([(1, 1)], "lean", [("cls", "cls", "all"), ("static", "static", "meth")])
         for form in ("func", "list", "dataclass", "plainclass", "dict"):
             flat(form, 1, "full", flip=1)
         flat("func", 2, "full", flip=1)
